@@ -117,6 +117,10 @@ def make_case(rng, tier):
         # data not of order one: A(t) * 2^k with the documented threshold keyword scaled accordingly.  Scaling by a power
         # of two is exact in floating point, so the factors must be those of the unscaled matrix (eigen/singular values * 2^k)
         c['scale_log2'] = rng.choice([33, -33, 20, -20])
+    if kind in ('qr', 'qr_full', 'cholesky', 'lu') and rng.random() < 0.3 and 'out_seed' not in c:
+        # data of small / large magnitude (exact power-of-two scaling; pivots of R_0 around 1e-9 are far above the default
+        # rank threshold 1e-14): R, U scale with A, L of Cholesky with its square root, Q and L of LU not at all
+        c['scale_log2'] = rng.choice([-30, -24, 20])
     return c
 
 
@@ -176,6 +180,12 @@ def check(c):
         x = x / scale
         if kind == 'svd':
             s = UTPM(s.data / scale)
+        elif kind in ('qr', 'qr_full'):
+            R = UTPM(R.data / scale)
+        elif kind == 'cholesky':
+            L = UTPM(L.data / 2.0 ** (c['scale_log2'] // 2))
+        elif kind == 'lu':
+            U = UTPM(U.data / scale)
         else:
             l = UTPM(l.data / scale)
     for p in range(P):
